@@ -853,6 +853,12 @@ func c46bWeights(r *vk.Run, e *c46bEnv) {
 		N = 4
 	}
 	var evals, nontriv int64
+	type wfail struct {
+		ws  []uint32
+		msg string
+		c   c46bCase
+	}
+	var wfails []wfail
 	var rec func(ws []uint32)
 	rec = func(ws []uint32) {
 		if len(ws) > 0 {
@@ -870,7 +876,7 @@ func c46bWeights(r *vk.Run, e *c46bEnv) {
 				r.Outcome(P, out)
 			}
 			if msg != "" {
-				r.Violation(P, fmt.Sprintf("weights %v", ws), msg, c)
+				wfails = append(wfails, wfail{append([]uint32(nil), ws...), msg, c})
 			}
 		}
 		if len(ws) == N {
@@ -881,6 +887,20 @@ func c46bWeights(r *vk.Run, e *c46bEnv) {
 		}
 	}
 	rec(nil)
+	// report the 3 smallest failing weight lists (shortest, then smallest weights)
+	sort.SliceStable(wfails, func(i, j int) bool {
+		a, b := wfails[i].ws, wfails[j].ws
+		if len(a) != len(b) {
+			return len(a) < len(b)
+		}
+		return fmt.Sprint(a) < fmt.Sprint(b)
+	})
+	for i, f := range wfails {
+		if i >= 3 {
+			break
+		}
+		r.Violation(P, fmt.Sprintf("weights %v", f.ws), fmt.Sprintf("%s (%d failing weight lists in total)", f.msg, len(wfails)), f.c)
+	}
 	r.Eval(P, evals)
 	r.NontrivialN(P, nontriv)
 	r.Set(P, "weights_evaluations", evals)
@@ -1119,7 +1139,7 @@ func c46bHash(r *vk.Run, e *c46bEnv) {
 			msg, ev, nt := c46bCheckHash(e, c, st)
 			evals += ev
 			nontriv += nt
-			if msg != "" && nfail < 5 {
+			if msg != "" && nfail < 3 {
 				nfail++
 				r.Violation(P, fmt.Sprintf("hash policies=%+v md=%v extra=%v", hps, b.MD, b.Extra), msg, c)
 			}
